@@ -26,6 +26,8 @@ VARIABLES atoms, phase, init, cond, wins, prevNT, prevSize
 vars == <<atoms, phase, init, cond, wins, prevNT, prevSize>>
 
 CaseFile == IOEnv.CASE_FILE
+\* the edges of the range of time literals and two instants far outside it (year 1500: base -1, year 2300: base 6)
+BasesFar == {0 - 1, 0, 5, 6}
 
 \* 1, 2: successive disjoint windows; 3 overlaps both; 4 later; 5 odd nanosecond ends inside 2; 6, 7 select nothing
 Win(i) == CASE i = 1 -> [s |-> I(1, 0), e |-> I(2, 0)]
